@@ -44,7 +44,7 @@ fn bookkeeping(ctx: &mut Ctx) {
     let nops = 2 + ctx.plan(11) as usize;
     let mut ops = Vec::new();
     for _ in 0..nops {
-        let o = match ctx.plan(15) {
+        let o = match ctx.plan(16) {
             0 | 1 => Op::BindTcp4,
             2 => Op::BindTcp6,
             3 => Op::BindLocalhost,
@@ -52,7 +52,7 @@ fn bookkeeping(ctx: &mut Ctx) {
             5 => Op::BindIpc(ctx.plan(2) as u8),
             6 => Op::BindBadHost,
             7 | 8 => Op::UnbindBound(ctx.plan(8) as usize),
-            9 => Op::UnbindUnknown(ctx.plan(3) as u8),
+            9 | 15 => Op::UnbindUnknown(ctx.plan(10) as u8),
             10 | 11 => Op::ConnectIn(ctx.plan(8) as usize),
             14 => Op::OtherSocketBind(ctx.plan(8) as usize),
             _ => Op::Exchange(ctx.plan(8) as usize),
@@ -68,6 +68,7 @@ fn bookkeeping(ctx: &mut Ctx) {
         let mut other = AnySock::new(kind, None);
         // the reference model: the set of bound endpoints (their text form), in bind order
         let mut model: Vec<String> = Vec::new();
+        let mut gone: Vec<String> = Vec::new(); // endpoints unbound earlier
         let mut conns: Vec<(RawPeer, String, u16)> = Vec::new(); // (peer, endpoint it came in through, id)
         let mut next_id = 0u16;
         macro_rules! bail {
@@ -142,6 +143,7 @@ fn bookkeeping(ctx: &mut Ctx) {
                     }
                     o2.borrow_mut().unbinds += 1;
                     model.retain(|m| *m != text);
+                    gone.push(text.clone());
                     // immediately: that endpoint refuses, every other one still accepts
                     if RawPeer::connect(&text).is_ok() {
                         bail!("unbound_endpoint_still_accepts", "op {n}: right after unbind({text}) returned, a connection to it was accepted");
@@ -162,18 +164,49 @@ fn bookkeeping(ctx: &mut Ctx) {
                     }
                 }
                 Op::UnbindUnknown(v) => {
-                    let text = match v {
-                        0 => "tcp://127.0.0.1:1".to_string(),
-                        1 => "ipc:///tmp/never-bound.sock".to_string(),
-                        _ => "tcp://localhost:2".to_string(),
+                    // far misses, and near misses derived from an endpoint that IS bound: its wildcard
+                    // form (what was passed to bind), the next port, another spelling of the host,
+                    // the unspecified address, a longer ipc path; and an endpoint unbound earlier
+                    let bound_tcp: Option<(String, u16)> = model.iter().rev().find(|m| m.starts_with("tcp://")).map(|m| {
+                        let (_, h, p) = crate::world::parse_ep(m);
+                        (h, p)
+                    });
+                    let host_text = |h: &str| if h.contains(':') { format!("[{h}]") } else { h.to_string() };
+                    let text = match (v, &bound_tcp) {
+                        (0, _) => "tcp://127.0.0.1:1".to_string(),
+                        (1, _) => "ipc:///tmp/never-bound.sock".to_string(),
+                        (2, _) => "tcp://localhost:2".to_string(),
+                        (3, Some((h, _))) => format!("tcp://{}:0", host_text(h)),
+                        (4, Some((h, p))) => format!("tcp://{}:{}", host_text(h), p.wrapping_add(1).max(1)),
+                        (5, Some((h, p))) => format!("tcp://{}:{p}", if h == "localhost" { "127.0.0.1" } else { "localhost" }),
+                        (6, Some((h, p))) => format!("tcp://{}:{p}", if h.contains(':') { "[::]" } else { "0.0.0.0" }),
+                        (7, _) => match model.iter().find(|m| m.starts_with("ipc://")) {
+                            Some(m) => format!("{m}x"),
+                            None => "ipc:///tmp/zsim-other.sock".to_string(),
+                        },
+                        (8, _) => match gone.last() {
+                            Some(g) => g.clone(),
+                            None => "tcp://127.0.0.1:3".to_string(),
+                        },
+                        (_, Some((h, _))) => format!("tcp://{}:65535", host_text(h)),
+                        _ => "tcp://[::1]:4".to_string(),
                     };
                     if model.contains(&text) {
                         continue;
                     }
-                    match sock.unbind(text.parse().expect("endpoint")).await {
+                    let Ok(ep) = text.parse::<Endpoint>() else { continue };
+                    match sock.unbind(ep).await {
                         Err(ZmqError::NoSuchBind(_)) => {}
-                        Err(e) => bail!("unbind_unknown_wrong_error", "op {n}: unbind({text}) of a never-bound endpoint failed with '{e}' instead of the no-such-bind error"),
-                        Ok(()) => bail!("unbind_unknown_succeeded", "op {n}: unbind({text}) of a never-bound endpoint succeeded"),
+                        Err(e) => bail!("unbind_unknown_wrong_error", "op {n}: unbind({text}) of an endpoint that is not bound failed with '{e}' instead of the no-such-bind error"),
+                        Ok(()) => bail!("unbind_unknown_succeeded", "op {n}: unbind({text}) succeeded although the bind set is {model:?}"),
+                    }
+                    rt::count("probe_unbind_of_unbound_endpoint_judged");
+                    // and it changed nothing: every bound endpoint still accepts
+                    for other in &model {
+                        match RawPeer::connect(other) {
+                            Ok(p) => drop(p),
+                            Err(_) => bail!("failed_unbind_stopped_an_endpoint", "op {n}: the failed unbind({text}) stopped {other}"),
+                        }
                     }
                 }
                 Op::OtherSocketBind(i) => {
